@@ -36,12 +36,12 @@ REQUIRED = {"R0": [], "R1": ["He"]}
 
 FULL_MENU = (
     [f"add:{r}" for r in ("r0", "r1", "r2", "r3", "r4", "r4w", "r5")]
-    + ["addfile", "rm:first", "rm:last", "rm:list01", "rm:list101", "rm:inst:r0", "rm:inst:r2", "rm:insts:r0,r2"]
+    + ["addfile", "rm:first", "rm:last", "rm:list01", "rm:list101", "rm:refused", "rm:inst:r0", "rm:inst:r2", "rm:insts:r0,r2"]
     + [f"allowed:{a}" for a in ALLOWED]
     + [f"required:{r}" for r in REQUIRED]
     + ["dedupe", "append:depletion", "append:thermal", "reindex"]
 )
-REDUCED_MENU = ["add:r0", "add:r2", "add:r5", "rm:first", "rm:list101", "rm:inst:r0", "allowed:A1", "allowed:A2", "required:R1", "dedupe", "append:depletion"]
+REDUCED_MENU = ["add:r0", "add:r2", "add:r5", "rm:first", "rm:list101", "rm:refused", "rm:inst:r0", "allowed:A1", "allowed:A2", "required:R1", "dedupe", "append:depletion"]
 
 
 def species_of(rid):
@@ -123,6 +123,8 @@ class Model:
             if len(self.held) < 2:
                 return False
             self.held = self.held[2:]
+        elif op == "rm:refused":
+            pass  # a call the library refuses (index past the end, then an argument of a wrong type) changes nothing
         elif op.startswith("rm:inst:"):
             cls = eqclass(op[8:])
             self.held = [(r, i) for r, i in self.held if eqclass(r) != cls]
@@ -210,6 +212,13 @@ def apply_real(net, op):
         net.remove_reaction([0, 1])
     elif op == "rm:list101":
         net.remove_reaction([1, 0, 1])
+    elif op == "rm:refused":
+        for bad in (len(net.reaction_list) + 5, (0,)):
+            try:
+                net.remove_reaction(bad)
+            except (IndexError, TypeError):
+                continue
+            raise HarnessError(f"remove_reaction({bad!r}) was expected to be refused")
     elif op.startswith("rm:inst:"):
         net.remove_reaction(mk(op[8:]))
     elif op.startswith("rm:insts:"):
@@ -277,6 +286,14 @@ def step(history):
             return {"history": history, "enabled": False, "key": None, "viols": [], "outcome": None}
         last = history[-1] if history else "init"
         lastk = ":".join(last.split(":")[:2]) if last.startswith(("rm", "append")) else last.split(":")[0]
+        # the observers themselves must work in every reachable state
+        try:
+            net.species, net.find_source_sink(), net.where_species("H"), net.elements
+        except HarnessError:
+            raise
+        except Exception as e:
+            viols.append((f"C14:observer-raises:after-{lastk}:{type(e).__name__}", f"history {list(history)}: an observer (species / find_source_sink / where_species / elements) raises {e!r}", case))
+            return {"history": history, "enabled": True, "key": ("error", history), "viols": viols, "outcome": "error"}
         # file reactions keep their file index as identity
         got_held = [(rid_of(r), r.idxfromfile) for r in net.reaction_list]
         exp_held = list(model.held)
@@ -537,7 +554,7 @@ def run(ctx):
         "samples": [{"menu": k, "histories": r.samples} for k, r in results.items()],
         "evaluations": trans + nav + ncli + nsp,
         "distinct_nontrivial": states,
-        "rule": "BFS over operation histories on real Network objects: full 25-operation menu to depth 3 (quick) / 5 (thorough), reduced 11-operation menu to depth 5 (quick) / 7 (thorough); every transition executes the real method and is compared with the reference model; plus allowed-setter vs constructor on all add sequences <=3, plus `naunet extend` on 3 inputs x 8 flag sets x 3 remove-species values",
+        "rule": "BFS over operation histories on real Network objects: full 26-operation menu to depth 3 (quick) / 5 (thorough), reduced 12-operation menu to depth 5 (quick) / 7 (thorough); every transition executes the real method and is compared with the reference model; plus allowed-setter vs constructor on all add sequences <=3, plus `naunet extend` on 3 inputs x 8 flag sets x 3 remove-species values",
         "levels": {k: r.per_level for k, r in results.items()},
         "depth_completed": {k: r.depth_completed for k, r in results.items()},
         "disabled_transitions": sum(r.disabled for r in results.values()),
